@@ -224,7 +224,8 @@ func (e *linEnv) atomKey(v ssa.Value) string {
 		}
 	case *ssa.UnOp:
 		if a.Op == token.MUL && e.opts.pathLoads {
-			if p := addrPath(a.X); p != "" {
+			// element loads (p[*]) are NOT keyed by path: different indices are different cells
+			if p := addrPath(a.X); p != "" && !strings.Contains(p, "[*]") {
 				return "load:" + p
 			}
 		}
@@ -256,7 +257,7 @@ func (e *linEnv) sliceKey(v ssa.Value) string {
 		return e.sliceKey(a.X)
 	case *ssa.UnOp:
 		if a.Op == token.MUL {
-			if p := addrPath(a.X); p != "" && (e.opts.pathLoads || strings.HasPrefix(p, "G:")) {
+			if p := addrPath(a.X); p != "" && !strings.Contains(p, "[*]") && (e.opts.pathLoads || strings.HasPrefix(p, "G:")) {
 				return "load:" + p
 			}
 		}
@@ -549,6 +550,12 @@ func (e *linEnv) condFacts(cond ssa.Value, truth bool) []Fact {
 func entails(facts []Fact, goal Lin) (bool, string) {
 	if goal.isConst() {
 		return goal.C <= 0, "constant"
+	}
+	// lengths are non-negative
+	for k := range goal.T {
+		if strings.HasPrefix(k, "len(") {
+			facts = append(facts, Fact{Lin{T: map[string]int64{k: -1}}, k + ">=0"})
+		}
 	}
 	for _, f := range facts {
 		if f.L.sameTerms(goal) && goal.C <= f.L.C {
